@@ -15,6 +15,22 @@ def C(fn, file, anchor, requires=(), ensures=(), **kw):
 C("P8E0::mul", "src/p8e0/ops.rs", r"pub const fn mul\(self, other: Self\) -> Self",
   ensures=[f"|r: &Self| {S}::mul_ok({_b('self')}, {_b('other')}, {_b('r')}, 8, 0)"])
 
+# ---- integer dividers (crate root) ---------------------------------------------------------------
+for _f, _t in (("div", "i32"), ("lldiv", "i64")):
+    C(f"crate::{_f}", "src/lib.rs", rf"^const fn {_f}\(numer: {_t}, denom: {_t}\)",
+      requires=["numer >= 0 && denom > 0"],
+      ensures=[f"|r: &({_t}, {_t})| r.0 == numer / denom && r.1 == numer % denom"],
+      stubbed_in_b=True)
+
+# ---- decode / encode leaves ------------------------------------------------------------------------
+for _T, _f, _u, _n, _es in (("P8E0", "src/p8e0.rs", "u8", 8, 0), ("P16E1", "src/p16e1.rs", "u16", 16, 1), ("P32E2", "src/p32e2.rs", "u32", 32, 2)):
+    C(f"{_T}::separate_bits_tmp", _f, rf"pub\(crate\) const fn separate_bits_tmp\(bits: {_u}\)",
+      requires=[f"bits != 0 && (bits as u64) < {S}::nar({_n})"],
+      ensures=[f"|r: &(i8, {_u})| {S}::septmp_ok(bits as u64, r.0 as i32, r.1 as u64, {_n}, {_es})"])
+    C(f"{_T}::calculate_regime", _f, r"pub\(crate\) const fn calculate_regime\(k: i8\)",
+      requires=["k != i8::MIN && k != i8::MAX"],
+      ensures=[f"|r: &({_u}, bool, u32)| {S}::regime_ok(k as i32, r.0 as u64, r.1, r.2, {_n})"])
+
 # (repo file to append `mod` to, harness file under /verif/harness).  Harness files not listed here are
 # attached to the crate root (src/lib.rs): they only need crate-visible items.
 _SPECIAL = {
